@@ -77,7 +77,9 @@ def run(chk, tier):
             chk.fail('R1', name, fn_loc(f), '%s computes %s; the checksum field of %s is word %d%s' % (name, got, view.split('::')[-1], word, ' and the pseudo-header protocol is %s' % proto if proto else ''), key='R1|%s' % name)
 
     # ---- R2 ---------------------------------------------------------------------------------------------------
-    re_ = RangeEngine(prog, inline_depth=0)
+    # helpers of the checksum module other than the named parts (word sums, word loop, fold) are part of the caller's accumulator expression
+    PARTS = r'checksum::(ipv4_word_sum|ipv6_word_sum|sum_be_words|finalize_checksum)$'
+    re_ = RangeEngine(prog, inline_depth=2, inline_filter=lambda c_: bool(re.search(r'^trippy_packet::checksum::\w+$', c_)) and not re.search(PARTS, c_))
     for name, ws in (('ipv4_checksum', 'ipv4_word_sum'), ('ipv6_checksum', 'ipv6_word_sum')):
         f = prog.find(r'checksum::%s$' % name)
         chk.fn_seen(f['path'])
@@ -130,6 +132,8 @@ def run(chk, tier):
         st = St()
         co = eng.run(cl[0], [eng.sym_ref(st, 'env'), eng.sym_ref(st, 'x')], st) if cl else []
         okw = bool(co) and all(vshow(o.value) in ('x', 'as_u32(x)') for o in co if o.kind == 'return')
+    if not okw:
+        okw = _fold_segments(prog, f)
     if okw:
         chk.ok('R2', 'ipv6_word_sum', 'Σ segments (each widened to u32)')
     else:
@@ -194,6 +198,45 @@ class BodyEngine(RangeEngine):
 
     def loop_closed(self, fn, bb):
         return False
+
+
+def _fold_segments(prog, f):
+    """ipv6_word_sum written as a loop: `for segment in ip.segments() { sum += u32::from(segment) }` — entered with sum = 0 over an iterator of
+    all eight segments (std contract: each item once), one iteration adds exactly the item, the exit returns the accumulator"""
+    g = CFG(f)
+    heads = sorted({h for (_, h) in g.back_edges()})
+    acc = [i for i, l in enumerate(f['locals']) if l['name'] and l['ty'] == 'u32' and i > f['argc']]
+    if len(heads) != 1 or len(acc) != 1 or f['argc'] != 1:
+        return False
+    e3 = BodyEngine(prog, inline_depth=1)
+    st = St()
+    st.nframes += 1
+    fid = st.nframes
+    st.mem[(fid, 1)] = ('sym', 'ip')
+    pre = e3.run_region(f, fid, 0, st, {heads[0]})
+    if len(pre) != 1 or pre[0].kind != 'stop' or pre[0].st.decisions or vshow(e3.purify(pre[0].st.mem.get((fid, acc[0])), pre[0].st)) != '0':
+        return False
+    s1 = pre[0].st.fork()
+    s1.decisions, s1.events = [], []
+    s1.mem[(fid, acc[0])] = ('sym', 'sum0')
+    ITER = r'call:iter::into_iter\(call:Ipv6Addr::segments\(ip\)\)|call:\w+::into_iter\(call:slice::iter\(call:Ipv6Addr::segments\(ip\)\)\)'
+    NEXT = r'call:\w+::next\((?:%s)\)' % ITER
+    seen = set()
+    for o in e3.run_region(f, fid, heads[0], s1, {heads[0]}):
+        d = [(vshow(a), v) for a, v, _ in o.st.decisions]
+        if len(d) != 1 or not re.fullmatch(r'discr\(%s\)' % NEXT, d[0][0]):
+            return False
+        if o.kind == 'stop' and d[0][1] == 1:
+            val = vshow(e3.purify(o.st.mem.get((fid, acc[0])), o.st))
+            if not re.fullmatch(r'Add\(sum0, (?:as_u32\()?(?:deref\()?field:0\(%s\)\)?\)?\)' % NEXT, val):
+                return False
+        elif o.kind == 'return' and d[0][1] == 0:
+            if vshow(o.value) != 'sum0':
+                return False
+        else:
+            return False
+        seen.add(o.kind)
+    return seen == {'stop', 'return'}
 
 
 TAIL = r'Add\(sum0, Shl\((?:as_u32\()?index\(data, Sub\(len\(data\), 1\)\)\)?, 8\)\)'
@@ -392,7 +435,7 @@ def _r4_r5(chk, prog):
     else:
         chk.fail('R4', 'finalize_checksum', fn_loc(ff), 'finalize_checksum: %s' % msg, detail={'cases': detail}, key='R4|finalize_checksum')
     callers = sorted(short(c) for c in __import__('tsa.callgraph', fromlist=['CallGraph']).CallGraph(prog).callers(ff['path']) if '::tests' not in c)
-    if set(callers) == {'checksum::checksum', 'checksum::ipv4_checksum', 'checksum::ipv6_checksum'}:
+    if callers and all(re.fullmatch(r'checksum::\w+', c) for c in callers):
         chk.ok('R4', 'finalize:callers', callers)
     else:
         chk.fail('R4', 'finalize:callers', fn_loc(ff), 'finalize_checksum is called from %s' % callers, key='R4|callers')
